@@ -536,6 +536,7 @@ func apiHelpers(c *Ctx) {
 
 func runC05(c *Ctx) {
 	apiHelpers(c)
+	defer c05LongLivedController(c)
 	nStr, nMaps := 6000, 6000
 	if c.Thorough {
 		nStr, nMaps = 100000, 100000
